@@ -35,6 +35,7 @@ Write(k) ==
   /\ op' = [name |-> "write", k |-> k, n |-> k, nonce |-> ~wn]
   /\ UNCHANGED <<rn, rks, rbad, delivered, under>>
 
+Rel(b, avail) == IF b = 0 THEN "zero" ELSE IF b < avail THEN "lt" ELSE IF b = avail THEN "eq" ELSE "gt"
 Cap(avail, b) == IF under = 0 THEN Min(b, avail) ELSE Min(Min(b, avail), under)
 Plain(u, at) == IF u.k = "data" /\ u.ks = at /\ ~rbad THEN u.pos ELSE 0
 
@@ -51,7 +52,8 @@ Read(b) ==
            IN /\ delivered' = delivered \o got
               /\ wire' = SubSeq(wire, need + n + 1, Len(wire))
               /\ rks' = rks + n /\ rn' = TRUE /\ rbad' = (rbad \/ noncebad)
-              /\ op' = [name |-> "read", b |-> b, n |-> n, nonce |-> ~rn, dry |-> (avail = 0)]
+              /\ op' = [name |-> "read", b |-> b, n |-> n, nonce |-> ~rn, dry |-> (avail = 0), avail |-> avail,
+                        rel |-> Rel(b, avail), left |-> avail - n]
   /\ UNCHANGED <<nsent, wn, wks, under>>
 
 Short(k) == /\ k # under /\ under' = k /\ op' = [name |-> "short", k |-> k]
